@@ -11,7 +11,8 @@ from pbt.common import SEED, richardson
 
 PROPERTY_ID = "C02"
 RULE = ("case = program: 1-4 sources (vectors; optionally one 2x n matrix consumed through tuple slices), 2-10 nodes drawn "
-        "from user-defined modules with exact Jacobians (tanh, cube, dense linear, bilinear two-input, two-output, "
+        "from user-defined modules with exact Jacobians (tanh, cube, dense linear, bilinear two-input, two-input sum returning "
+        "one array object as adjoint of both inputs, two-output, "
         "reduction) and library modules (EinSum, MathGeneral, ConcatSignal, FilterConv), wiring features drawn "
         "explicitly: fan-out, same signal twice, input slices (basic/step/integer-array/nested/tuple), output slices "
         "into a shared buffer, nested Network objects (constructor / append / dict spec), several seeded signals incl. "
@@ -26,11 +27,11 @@ ASSUMPTIONS = [
 ]
 
 KINDS = ["tanh", "cube", "lin", "bilin", "twoout", "sum", "einsum_mul", "math_a", "math_b", "concat", "fill2",
-         "filterconv", "tanh", "lin", "bilin"]
+         "filterconv", "tanh", "lin", "bilin", "sumlin", "sumlin"]
 
 
 def budget(tier):
-    return {"examples": 1600 if tier == "quick" else 30000, "shards": 16, "shrink": 300 if tier == "quick" else 2000}
+    return {"examples": 4000 if tier == "quick" else 60000, "shards": 16, "shrink": 300 if tier == "quick" else 2000}
 
 
 def strategy(tier):
@@ -132,6 +133,19 @@ def mods():
         def _sensitivity(self, dy):
             return 2 * self.x * dy[0]
 
+    class C02SumLin(pym.Module):
+        """y = A (x1 + x2); the adjoint is the same for both inputs and is returned as one and the same array object"""
+        def _prepare(self, A):
+            self.A = A
+
+        def _response(self, x1, x2):
+            return self.A @ (x1 + x2)
+
+        def _sensitivity(self, dy):
+            g = self.A.T @ dy
+            return g, g
+
+    _MODS["sumlin"] = C02SumLin
     _MODS.update(dict(tanh=C02Tanh, cube=C02Cube, lin=C02Lin, bilin=C02Bilin, twoout=C02TwoOut, sum=C02SumSq))
     return _MODS
 
@@ -231,7 +245,8 @@ def check_case(case):
 
     for inode, nd in enumerate(case["nodes"]):
         kind, m = nd["kind"], nd["m"]
-        r0, v0, J0, g0 = take(nd["in"][0], nd["slc"][0])
+        slc0 = None if kind == "sumlin" else nd["slc"][0]     # sumlin takes whole, preferably distinct, signals
+        r0, v0, J0, g0 = take(nd["in"][0], slc0)
         n0 = v0.size
         tag = f"n{inode}"
         if kind == "tanh":
@@ -251,13 +266,15 @@ def check_case(case):
             o2 = new_sig(tag + "b", t, (1 - t ** 2)[:, None] * (Q @ J0))
             modules.append(M["twoout"](r0, [o1, o2], P, Q))
             labels.append("two_outputs")
-        elif kind in ("bilin", "einsum_mul", "math_a", "math_b", "concat"):
-            if kind in ("einsum_mul", "math_a", "math_b"):
+        elif kind in ("bilin", "einsum_mul", "math_a", "math_b", "concat", "sumlin"):
+            if kind in ("einsum_mul", "math_a", "math_b", "sumlin"):
                 # elementwise: second operand must have the same length; otherwise use the same operand twice
                 cand = [i for i, s in enumerate(sigs) if s.val.size == n0]
-                if nd["slc"][0] is not None or not cand:
+                if kind == "sumlin" and len(cand) > 1:
+                    cand = [i for i in cand if sigs[i] is not g0]
+                if slc0 is not None or not cand:
                     # first operand is sliced (or unique in length): pair it with the same expression
-                    r1, v1, J1, g1 = take(nd["in"][0], nd["slc"][0])
+                    r1, v1, J1, g1 = take(nd["in"][0], slc0)
                 else:
                     r1, v1, J1, g1 = take(cand[nd["in"][1] % len(cand)], None)
             else:
@@ -270,6 +287,10 @@ def check_case(case):
                 a, b = A @ v0, B @ v1
                 modules.append(M["bilin"]([r0, r1], new_sig(tag, a * b, b[:, None] * (A @ J0) + a[:, None] * (B @ J1)),
                                           A, B))
+            elif kind == "sumlin":
+                A = rng.uniform(-1, 1, (m, n0))
+                modules.append(M["sumlin"]([r0, r1], new_sig(tag, A @ (v0 + v1), A @ (J0 + J1)), A))
+                labels.append("shared_adjoint_object")
             elif kind == "einsum_mul":
                 modules.append(pym.EinSum([r0, r1], new_sig(tag, v0 * v1, v1[:, None] * J0 + v0[:, None] * J1),
                                           expression="i,i->i"))
